@@ -16,6 +16,7 @@ struct Run {
 	static P mk(uint64_t b) { P p; p.setbits(b); return p; }
 
 	static void binary(uint64_t a, uint64_t b) {
+		UV_MARK("posit %u %u binary %llx %llx", nbits, es, (unsigned long long)a, (unsigned long long)b);
 		P pa = mk(a), pb = mk(b);
 		if (g_arith) {
 		std::printf("posit %u %u add %llx %llx => %llx\n", nbits, es, (unsigned long long)a, (unsigned long long)b, (unsigned long long)enc(pa + pb));
@@ -28,6 +29,7 @@ struct Run {
 		std::printf("posit %u %u cmp %llx %llx => %x\n", nbits, es, (unsigned long long)a, (unsigned long long)b, m);
 	}
 	static void unary(uint64_t a) {
+		UV_MARK("posit %u %u unary %llx", nbits, es, (unsigned long long)a);
 		P pa = mk(a);
 		if (g_arith) {
 		std::printf("posit %u %u rec %llx => %llx\n", nbits, es, (unsigned long long)a, (unsigned long long)enc(pa.reciprocal()));
@@ -115,6 +117,7 @@ struct Run {
 		}
 	}
 	static void conv_target(uint64_t y) {
+		UV_MARK("posit %u %u conv_target %llx", nbits, es, (unsigned long long)y);
 		to_native(y);
 		P py = mk(y);
 		if (py.isnar()) return;
@@ -211,11 +214,15 @@ struct Run {
 	}
 };
 
+#ifdef UV_SAN_SMALL
+#define CONFIGS(X) X(2,0) X(3,0) X(3,1) X(4,0) X(4,2) X(5,1) X(5,3) X(6,2) X(6,4) X(7,0) X(7,5) X(8,0) X(8,2) X(8,5) X(16,1) X(32,2) X(64,3)
+#else
 #define CONFIGS(X) \
 	X(2,0) X(3,0) X(3,1) X(4,0) X(4,1) X(4,2) X(5,0) X(5,1) X(5,2) X(5,3) \
 	X(6,0) X(6,1) X(6,2) X(6,3) X(6,4) X(7,0) X(7,1) X(7,2) X(7,3) X(7,4) X(7,5) \
 	X(8,0) X(8,1) X(8,2) X(8,3) X(8,4) X(8,5) \
 	X(9,1) X(10,2) X(12,1) X(16,1) X(16,2) X(20,1) X(24,2) X(32,2) X(32,3) X(48,2) X(64,3) X(64,2)
+#endif
 
 int main(int argc, char** argv) {
 	if (argc < 4) { std::fprintf(stderr, "usage: h_posit exh|rnd nbits es [count] [all|arith|order]\n"); return 2; }
